@@ -36,6 +36,7 @@ type Query struct {
 	VarList []*Term // scalar variables (for get-value)
 	Nodes   int
 	Cells   []cellReq // array cells read by the query (for model extraction)
+	HasFP   bool
 	Decl    map[string]bool
 }
 
@@ -143,6 +144,9 @@ func (c *Ctx) BuildQuery(asserts []*Term) *Query {
 			fmt.Fprintf(&lets, "(let ((t%d %s))\n", t.ID, vn)
 			nlets++
 			continue
+		}
+		if t.Op >= OFpFromBits {
+			q.HasFP = true
 		}
 		fmt.Fprintf(&lets, "(let ((t%d ", t.ID)
 		nlets++
@@ -252,6 +256,7 @@ var solverBin = map[string][]string{
 	"z3":    {"z3", "-in"},
 	"z3new": {"z3-new", "-in"},
 	"cvc5":  {"cvc5", "--incremental", "--lang=smt2", "--produce-models"},
+	"cvc5int": {"cvc5", "--incremental", "--lang=smt2", "--produce-models", "--solve-bv-as-int=sum"},
 }
 
 func startSolver(kind string) (*Solver, error) {
@@ -290,7 +295,7 @@ func (s *Solver) readUntil(marker string, deadline time.Duration) (string, error
 		var sb strings.Builder
 		for {
 			line, err := s.out.ReadString('\n')
-			if strings.TrimSpace(line) == marker {
+			if strings.Trim(strings.TrimSpace(line), "\"") == marker {
 				ch <- res{sb.String(), nil}
 				return
 			}
@@ -326,8 +331,8 @@ func (s *Solver) Solve(q *Query, timeoutSec int, wantModel bool) (*SolveResult, 
 	mk := nextMarker()
 	var sb strings.Builder
 	sb.WriteString("(reset)\n")
-	if s.kind == "cvc5" {
-		sb.WriteString("(set-logic ALL)\n")
+	if strings.HasPrefix(s.kind, "cvc5") {
+		fmt.Fprintf(&sb, "(set-option :tlimit-per %d)\n(set-logic ALL)\n", timeoutSec*1000)
 	} else {
 		fmt.Fprintf(&sb, "(set-option :timeout %d)\n", timeoutSec*1000)
 	}
